@@ -11,6 +11,7 @@ import Vise.Driver.Db
 import Vise.Driver.Pg
 import Vise.Driver.Asm
 import Vise.Driver.Crash
+import Vise.Driver.Conc
 
 open Vise.Driver
 
@@ -26,6 +27,7 @@ def main (args : List String) : IO UInt32 := do
   | ["pg"] => loop stdin stdout () pgStep; return 0
   | ["asm"] => loop stdin stdout () asmStep; return 0
   | ["crash"] => loop stdin stdout () crashStep; return 0
+  | ["conc"] => loop stdin stdout () concStep; return 0
   | _ =>
     IO.eprintln "usage: visemodel <suite>"
     return 2
